@@ -1164,4 +1164,515 @@ theorem sendHistory_inv (lvl : Level) (cfg : Cfg) (target : Str) (chunked : Bool
           rw [this.1 x hx] at hx3
           exact absurd hx3 (by simp)
 
+
+/-! ## `str(n)` round trip -/
+
+theorem toDecAux_fuel (n : Nat) : ∀ f g, n ≤ f → n ≤ g → toDecAux f n = toDecAux g n := by
+  induction n using Nat.strongRecOn with
+  | _ n ih =>
+    intro f g hf hg
+    cases f with
+    | zero =>
+      have : n = 0 := by omega
+      subst this
+      cases g <;> simp [toDecAux]
+    | succ f =>
+      cases g with
+      | zero =>
+        have : n = 0 := by omega
+        subst this
+        simp [toDecAux]
+      | succ g =>
+        simp only [toDecAux]
+        split
+        · rfl
+        · rename_i h
+          have hlt : n / 10 < n := Nat.div_lt_self (by omega) (by decide)
+          rw [ih (n / 10) hlt f g (by omega) (by omega)]
+
+theorem toDec_unfold (n : Nat) :
+    toDec n = if n < 10 then [48 + n] else toDec (n / 10) ++ [48 + n % 10] := by
+  unfold toDec
+  cases n with
+  | zero => simp [toDecAux]
+  | succ m =>
+    simp only [toDecAux]
+    split
+    · rfl
+    · rename_i h
+      have hlt : (m + 1) / 10 < m + 1 := Nat.div_lt_self (by omega) (by decide)
+      rw [toDecAux_fuel ((m + 1) / 10) m ((m + 1) / 10) (by omega) (Nat.le_refl _)]
+
+theorem ofDecAux_append (a b : Bytes) (acc : Nat) :
+    ofDecAux (a ++ b) acc = (ofDecAux a acc).bind (fun m => ofDecAux b m) := by
+  induction a generalizing acc with
+  | nil => simp [ofDecAux]
+  | cons c cs ih =>
+    simp only [List.cons_append, ofDecAux]
+    split
+    · exact ih _
+    · simp
+
+theorem ofDecAux_toDec (n : Nat) : ofDecAux (toDec n) 0 = some n := by
+  induction n using Nat.strongRecOn with
+  | _ n ih =>
+    rw [toDec_unfold]
+    split
+    · rename_i h
+      have : isDigitC (48 + n) = true := by simp [isDigitC]; omega
+      simp [ofDecAux, this]
+    · rename_i h
+      have hlt : n / 10 < n := Nat.div_lt_self (by omega) (by decide)
+      have hm : n % 10 < 10 := Nat.mod_lt _ (by decide)
+      have : isDigitC (48 + n % 10) = true := by simp [isDigitC]; omega
+      rw [ofDecAux_append, ih _ hlt]
+      simp only [Option.bind_some, ofDecAux, this, if_true]
+      congr 1; omega
+
+theorem toDec_digits (n : Nat) : ∀ c ∈ toDec n, isDigitC c = true := by
+  induction n using Nat.strongRecOn with
+  | _ n ih =>
+    rw [toDec_unfold]
+    split
+    · intro c hc; simp at hc; subst hc; simp [isDigitC]; omega
+    · rename_i h
+      have hlt : n / 10 < n := Nat.div_lt_self (by omega) (by decide)
+      have hm : n % 10 < 10 := Nat.mod_lt _ (by decide)
+      intro c hc
+      simp only [List.mem_append, List.mem_singleton] at hc
+      rcases hc with hc | hc
+      · exact ih _ hlt c hc
+      · subst hc; simp [isDigitC]; omega
+
+theorem toDec_ne_nil (n : Nat) : toDec n ≠ [] := by
+  rw [toDec_unfold]; split <;> simp
+
+/-- `Content-Length: str(n)` is read back exactly by the strict decimal reader -/
+theorem ofDec_toDec (n : Nat) : ofDec (toDec n) = some n := by
+  have := toDec_ne_nil n
+  simp [ofDec, this, ofDecAux_toDec]
+
+theorem ltrim_of_head {b : Bytes} (h : ∀ c, b.head? = some c → isWS c = false) : ltrim b = b := by
+  cases b with
+  | nil => rfl
+  | cons x t => simp [ltrim, List.dropWhile, h x rfl]
+
+theorem trimOWS_noWS (b : Bytes) (h : ∀ c ∈ b, isWS c = false) : trimOWS b = b := by
+  have h1 : ltrim b = b := ltrim_of_head (fun c hc => h c (List.mem_of_mem_head? hc))
+  have h2 : ltrim b.reverse = b.reverse :=
+    ltrim_of_head (fun c hc => h c (by have := List.mem_of_mem_head? hc; simpa using this))
+  simp [trimOWS, h1, h2]
+
+theorem trimOWS_toDec (n : Nat) : trimOWS (toDec n) = toDec n := by
+  apply trimOWS_noWS
+  intro c hc
+  have := toDec_digits n c hc
+  simp [isDigitC] at this
+  simp [isWS]; omega
+
+/-! ## blocksize reads concatenate to the content -/
+
+theorem blocks_go_flatten (n : Nat) (hn : 0 < n) : ∀ (fuel : Nat) (l : List Nat), l.length ≤ fuel →
+    (blocks.go n fuel l).flatten = l := by
+  intro fuel
+  induction fuel with
+  | zero => intro l hl; have : l = [] := List.eq_nil_of_length_eq_zero (by omega); subst this; simp [blocks.go]
+  | succ f ih =>
+    intro l hl
+    cases l with
+    | nil => simp [blocks.go]
+    | cons x t =>
+      simp only [blocks.go, List.flatten_cons]
+      rw [ih _ (by simp at hl ⊢; omega)]
+      exact List.take_append_drop n (x :: t)
+
+theorem blocks_flatten (n : Nat) (hn : 0 < n) (l : List Nat) : (blocks n l).flatten = l := by
+  unfold blocks
+  have : n ≠ 0 := by omega
+  simp only [this, if_false]
+  exact blocks_go_flatten n hn _ l (Nat.le_refl _)
+
+theorem chunkBytes_str_append (a b : Str) :
+    chunkBytes (.str (a ++ b)) = (do let x ← chunkBytes (.str a); let y ← chunkBytes (.str b); pure (x ++ y)) := by
+  simp only [chunkBytes, List.any_append, utf8SP, List.flatMap_append]
+  cases ha : a.any isSurrogate <;> cases hb : b.any isSurrogate <;> simp [ha, hb]
+
+theorem chunksPayload_str_blocks (bl : List Str) :
+    chunksPayload (bl.map Chunk.str) = chunkBytes (.str bl.flatten) := by
+  induction bl with
+  | nil => simp [chunksPayload, chunkBytes, utf8SP]
+  | cons a t ih =>
+    simp only [List.map_cons, chunksPayload, List.flatten_cons, chunkBytes_str_append, ih]
+
+theorem chunksPayload_bytes_blocks (bl : List Bytes) :
+    chunksPayload (bl.map Chunk.bytes) = some bl.flatten := by
+  induction bl with
+  | nil => simp [chunksPayload]
+  | cons a t ih => simp [chunksPayload, chunkBytes, ih]
+
+
+/-! ## bodies → chunks → wire → payload -/
+
+/-- a chunk whose `len()` agrees with its byte length (everything except buffers with wide items) -/
+def wellSized : Chunk → Prop
+  | .buf _ k => k = 1
+  | _ => True
+
+/-- bodies all of whose pieces are well-sized -/
+def WellSizedBody : Body → Prop
+  | .buffer _ k => k = 1
+  | .iter cs _ => ∀ c ∈ cs, wellSized c
+  | _ => True
+
+theorem bodyToChunks_spec {body : Body} {m : Str} {bs : Nat} {cc : ChunksCL} (hbs : 0 < bs)
+    (hw : WellSizedBody body) (h : bodyToChunks body m bs = .ok cc) :
+    (match cc.chunks with
+     | some cs => chunksPayload cs = payload body ∧ ∀ c ∈ cs, wellSized c
+     | none => body = .none) ∧
+    (∀ n pay, cc.contentLength = some n → payload body = some pay → pay.length = n) := by
+  cases body with
+  | none =>
+    simp [bodyToChunks] at h; subst h
+    refine ⟨rfl, ?_⟩
+    intro n pay hn hp
+    simp [payload] at hp; subst hp
+    simp only at hn
+    split at hn <;> simp at hn
+    exact hn
+  | bytes b =>
+    simp [bodyToChunks] at h; subst h
+    refine ⟨⟨by simp [chunksPayload, chunkBytes, payload], by simp [wellSized]⟩, ?_⟩
+    intro n pay hn hp
+    simp [payload] at hp; simp at hn; subst hp; exact hn
+  | str s =>
+    simp only [bodyToChunks, bind, Except.bind] at h
+    split at h
+    · simp at h
+    · rename_i b hb
+      simp [pure, Except.pure] at h; subst h
+      simp only [encodeUtf8] at hb
+      split at hb
+      · simp at hb
+      · rename_i hs
+        simp at hb; subst hb
+        refine ⟨⟨by simp [chunksPayload, chunkBytes, payload, hs], by simp [wellSized]⟩, ?_⟩
+        intro n pay hn hp
+        simp [payload, chunkBytes, hs] at hp; simp at hn; subst hp; exact hn
+  | buffer b k =>
+    simp only [WellSizedBody] at hw; subst hw
+    simp [bodyToChunks] at h; subst h
+    refine ⟨⟨by simp [chunksPayload, chunkBytes, payload], by simp [wellSized]⟩, ?_⟩
+    intro n pay hn hp
+    simp [payload] at hp; simp at hn; subst hp; exact hn
+  | file f =>
+    simp [bodyToChunks] at h; subst h
+    refine ⟨⟨?_, ?_⟩, by intro n pay hn; simp at hn⟩
+    · simp only [payload]
+      cases f.text with
+      | true =>
+        simp only [if_true]
+        have : (blocks bs (f.content.drop f.pos)).map (fun d => Chunk.str d) = (blocks bs (f.content.drop f.pos)).map Chunk.str := rfl
+        rw [this, chunksPayload_str_blocks, blocks_flatten bs hbs]
+      | false =>
+        simp only [Bool.false_eq_true, if_false]
+        have : (blocks bs (f.content.drop f.pos)).map (fun d => Chunk.bytes d) = (blocks bs (f.content.drop f.pos)).map Chunk.bytes := rfl
+        rw [this, chunksPayload_bytes_blocks, blocks_flatten bs hbs]
+        simp [chunkBytes]
+    · intro c hc
+      simp only [List.mem_map] at hc
+      obtain ⟨d, _, rfl⟩ := hc
+      split <;> simp [wellSized]
+  | iter cs one =>
+    simp [bodyToChunks] at h; subst h
+    exact ⟨⟨rfl, hw⟩, by intro n pay hn; simp at hn⟩
+
+
+theorem sendChunks_spec (cs : List Chunk) (hw : ∀ c ∈ cs, wellSized c) (chunked : Bool)
+    (hok : (sendChunks chunked cs).err = none) :
+    ∃ ds : List Bytes, (∀ d ∈ ds, d ≠ []) ∧ chunksPayload cs = some ds.flatten ∧
+      (sendChunks chunked cs).written = if chunked then frameData ds else ds.flatten := by
+  induction cs with
+  | nil => exact ⟨[], by simp, by simp [chunksPayload], by cases chunked <;> simp [sendChunks, frameData]⟩
+  | cons c t ih =>
+    have hwt : ∀ c ∈ t, wellSized c := fun x hx => hw x (by simp [hx])
+    have hwc := hw c (by simp)
+    simp only [sendChunks] at hok ⊢
+    split at hok
+    · -- empty piece: skipped
+      rename_i hlen
+      obtain ⟨ds, h1, h2, h3⟩ := ih hwt hok
+      refine ⟨ds, h1, ?_, by simpa [hlen] using h3⟩
+      have hb : chunkBytes c = some [] := by
+        cases c with
+        | bytes b => simp [Chunk.len] at hlen; simp [chunkBytes, hlen]
+        | str s => simp [Chunk.len] at hlen; simp [chunkBytes, hlen, utf8SP]
+        | buf b k =>
+          simp only [wellSized] at hwc; subst hwc
+          simp [Chunk.len] at hlen; simp [chunkBytes, hlen]
+      simp [chunksPayload, hb, h2]
+    · rename_i hlen
+      split at hok
+      · simp at hok
+      · rename_i d hd
+        simp only at hok
+        obtain ⟨ds, h1, h2, h3⟩ := ih hwt hok
+        have hcb : chunkBytes c = some d ∧ c.sizeLine d = d.length ∧ d ≠ [] := by
+          cases c with
+          | bytes b =>
+            simp [Chunk.data] at hd; subst hd
+            simp [Chunk.len] at hlen
+            exact ⟨rfl, rfl, hlen⟩
+          | str s =>
+            simp only [Chunk.data, encodeUtf8] at hd
+            split at hd
+            · simp at hd
+            · rename_i hs
+              simp at hd; subst hd
+              simp [Chunk.len] at hlen
+              refine ⟨by simp [chunkBytes, hs], rfl, ?_⟩
+              cases s with
+              | nil => exact absurd rfl hlen
+              | cons x u =>
+                simp only [utf8SP, List.flatMap_cons]
+                intro e
+                have : utf8Char x = [] := (List.append_eq_nil_iff.mp e).1
+                unfold utf8Char at this
+                repeat' split at this
+                all_goals simp at this
+          | buf b k =>
+            simp only [wellSized] at hwc; subst hwc
+            simp [Chunk.data] at hd; subst hd
+            simp [Chunk.len] at hlen
+            exact ⟨rfl, by simp [Chunk.sizeLine, Chunk.len], hlen⟩
+        obtain ⟨hc1, hc2, hc3⟩ := hcb
+        refine ⟨d :: ds, ?_, ?_, ?_⟩
+        · intro x hx; simp at hx; rcases hx with rfl | hx
+          · exact hc3
+          · exact h1 x hx
+        · simp [chunksPayload, hc1, h2]
+        · simp only [hlen, if_false, hd, h3, hc2]
+          cases chunked <;> simp [frameData]
+
+theorem framing_cases (keys : List Str) (ch : Bool) (chunks : Option (List Chunk)) (cl : Option Nat)
+    (fr : Framing) (h : framing keys ch chunks cl = .ok fr)
+    (hk1 : keys.contains (lit "content-length") = false) (hk2 : keys.contains (lit "transfer-encoding") = false) :
+    (fr.chunked = true ∧ fr.lines = [(lit "Transfer-Encoding", lit "chunked")] ∧ (ch = true ∨ (cl = none ∧ chunks.isSome)))
+    ∨ (fr.chunked = false ∧ fr.lines = [] ∧ ch = false ∧ cl = none ∧ chunks = none)
+    ∨ (∃ n, fr.chunked = false ∧ fr.lines = [(lit "Content-Length", toDec n)] ∧ ch = false ∧ cl = some n) := by
+  have hte : putheader (lit "Transfer-Encoding") (lit "chunked") = .ok [(lit "Transfer-Encoding", lit "chunked")] := by
+    decide
+  have hcl : ∀ n, putheader (lit "Content-Length") (toDec n) = .ok [(lit "Content-Length", toDec n)] ∨
+      ∃ e, putheader (lit "Content-Length") (toDec n) = .error e := by
+    intro n
+    cases hp : putheader (lit "Content-Length") (toDec n) with
+    | error e => exact Or.inr ⟨e, rfl⟩
+    | ok l =>
+      left
+      unfold putheader at hp
+      split at hp
+      · obtain ⟨a, ha, e⟩ := map_ok hp
+        subst e
+        unfold hcPutheader at ha
+        split at ha
+        · simp at ha
+        · rename_i nn hnn
+          have : nn = lit "Content-Length" := by
+            have : encodeAscii (lit "Content-Length") = .ok (lit "Content-Length") := by decide
+            rw [this] at hnn; simp at hnn; exact hnn.symm
+          subst this
+          split at ha
+          · simp at ha
+          · split at ha
+            · simp at ha
+            · rename_i v hv
+              simp only [encodeLatin1] at hv
+              split at hv
+              · simp at hv; subst hv
+                split at ha
+                · simp at ha
+                · simp at ha; subst ha; rfl
+              · simp at hv
+      · split at hp <;> simp at hp
+        rename_i h1 h2
+        have hc : Gen.skippableHeaders.contains (lower (lit "Content-Length")) = false := by decide
+        rw [hc] at h2
+        simp at h2
+  unfold framing at h
+  split at h
+  · rename_i hch
+    simp only [hk2, Bool.not_false, if_true, hte, Except.map] at h
+    simp at h; subst h
+    exact Or.inl ⟨rfl, rfl, Or.inl hch⟩
+  · rename_i hch
+    simp only [hk1, hk2] at h
+    simp at h
+    split at h
+    · rename_i hcl0
+      split at h
+      · rename_i hsome
+        simp only [hte, Except.map] at h
+        simp at h; subst h
+        exact Or.inl ⟨rfl, rfl, Or.inr ⟨rfl, hsome⟩⟩
+      · rename_i hsome
+        simp at h; subst h
+        refine Or.inr (Or.inl ⟨rfl, rfl, by simpa using hch, rfl, ?_⟩)
+        cases chunks <;> simp_all
+    · rename_i n
+      rcases hcl n with hp | ⟨e, hp⟩
+      · simp only [hp, Except.map] at h
+        simp at h; subst h
+        exact Or.inr (Or.inr ⟨n, rfl, rfl, by simpa using hch, rfl⟩)
+      · simp [hp, Except.map] at h
+
+
+/-! ## composition: the parsed head de-frames the body part to the payload -/
+
+def noFraming (l : List Hdr) : Prop :=
+  ∀ h ∈ l, lower h.1 ≠ lit "content-length" ∧ lower h.1 ≠ lit "transfer-encoding"
+
+def trimHdr (h : Hdr) : Bytes × Bytes := (h.1, trimOWS h.2)
+
+theorem headerValues_append (a b : List (Bytes × Bytes)) (n : Str) :
+    headerValues (a ++ b) n = headerValues a n ++ headerValues b n := by
+  simp [headerValues]
+
+theorem headerValues_noFraming {l : List Hdr} (h : noFraming l) :
+    headerValues (l.map trimHdr) (lit "content-length") = [] ∧
+    headerValues (l.map trimHdr) (lit "transfer-encoding") = [] := by
+  constructor <;>
+  · simp only [headerValues, List.map_eq_nil_iff, List.filter_eq_nil_iff, List.mem_map]
+    rintro _ ⟨x, hx, rfl⟩
+    have := h x hx
+    simp [trimHdr, this.1, this.2]
+
+theorem noFraming_caller {headers : List (Str × Str)}
+    (h1 : (headerKeys headers).contains (lit "content-length") = false)
+    (h2 : (headerKeys headers).contains (lit "transfer-encoding") = false) : noFraming (callerHdrs headers) := by
+  intro h hh
+  have hm : h ∈ headers := (List.mem_filter.mp hh).1
+  have hk : lower h.1 ∈ headerKeys headers := List.mem_map.mpr ⟨h, hm, rfl⟩
+  constructor
+  · intro e; rw [e] at hk; simp at h1; exact h1 hk
+  · intro e; rw [e] at hk; simp at h2; exact h2 hk
+
+theorem bodyPhase_ok {p : Prepared} (h : (bodyPhase p).err = none) :
+    (match p.chunks with
+     | some cs => (sendChunks p.chunked cs).err = none ∧
+        (bodyPhase p).written = (sendChunks p.chunked cs).written ++ (if p.chunked then lastChunk else [])
+     | none => (bodyPhase p).written = (if p.chunked then lastChunk else [])) := by
+  unfold bodyPhase at h ⊢
+  cases hc : p.chunks with
+  | none => simp
+  | some cs =>
+    simp only [hc] at h ⊢
+    cases he : (sendChunks p.chunked cs).err with
+    | some e => simp [he] at h
+    | none => simp [he]
+
+theorem deframe_prepared {cfg : Cfg} {meth url : Str} {headers : List (Str × Str)} {body : Body} {ch : Bool}
+    {p : Prepared} (hp : prepare cfg meth url headers body ch = .ok p)
+    (h1 : (headerKeys headers).contains (lit "content-length") = false)
+    (h2 : (headerKeys headers).contains (lit "transfer-encoding") = false)
+    (hbs : 0 < cfg.blocksize) (hw : WellSizedBody body) (hok : (bodyPhase p).err = none) (m t : Bytes) :
+    ∃ kind pay, deframe ⟨m, t, p.hdrs.map trimHdr, (bodyPhase p).written⟩ = some (kind, pay) ∧
+      payload body = some pay := by
+  obtain ⟨l0, cc, fr, ua, hs', _, h0, hcc, hfr, hua, hhs, rfl⟩ := prepare_inv hp
+  -- which parts can carry framing names
+  have hn0 : noFraming l0.2 := by
+    obtain ⟨hostL, aeL, e, hh, ha⟩ := putrequest_hdrs h0
+    rw [e]
+    intro h hm
+    simp only [List.mem_append] at hm
+    rcases hm with hm | hm
+    · split at hh
+      · subst hh; simp at hm
+      · obtain ⟨v, rfl⟩ := hh; simp at hm; subst hm
+        exact ⟨by show lower (lit "Host") ≠ _; decide, by show lower (lit "Host") ≠ _; decide⟩
+    · split at ha
+      · subst ha; simp at hm
+      · subst ha; simp at hm; subst hm; exact ⟨by decide, by decide⟩
+  have hnua : noFraming ua := by
+    split at hua
+    · simp at hua; subst hua; intro h hm; simp at hm
+    · have := putheader_eq hua
+      subst this
+      intro h hm
+      split at hm
+      · simp at hm; subst hm; exact ⟨by decide, by decide⟩
+      · simp at hm
+  have hncaller : noFraming hs' := by rw [putCallerHeaders_eq hhs]; exact noFraming_caller h1 h2
+  have hval : ∀ n, n = lit "content-length" ∨ n = lit "transfer-encoding" →
+      headerValues ((l0.2 ++ fr.lines ++ ua ++ hs').map trimHdr) n = headerValues (fr.lines.map trimHdr) n := by
+    intro n hn
+    simp only [List.map_append, headerValues_append]
+    rcases hn with rfl | rfl
+    · simp [(headerValues_noFraming hn0).1, (headerValues_noFraming hnua).1, (headerValues_noFraming hncaller).1]
+    · simp [(headerValues_noFraming hn0).2, (headerValues_noFraming hnua).2, (headerValues_noFraming hncaller).2]
+  obtain ⟨hspec1, hspec2⟩ := bodyToChunks_spec hbs hw hcc
+  have hbp := bodyPhase_ok hok
+  simp only at hbp hok ⊢
+  generalize (bodyPhase _).written = W at hbp ⊢
+  unfold deframe
+  simp only [hval _ (Or.inl rfl), hval _ (Or.inr rfl)]
+  rcases framing_cases _ _ _ _ _ hfr h1 h2 with ⟨hch, hl, _⟩ | ⟨hch, hl, _, hcl, hcn⟩ | ⟨n, hch, hl, _, hcl⟩
+  · -- Transfer-Encoding: chunked
+    have e1 : headerValues (fr.lines.map trimHdr) (lit "content-length") = [] := by rw [hl]; decide
+    have e2 : headerValues (fr.lines.map trimHdr) (lit "transfer-encoding") = [lit "chunked"] := by rw [hl]; decide
+    have e3 : (lower (lit "chunked") == lit "chunked") = true := by decide
+    simp only [e1, e2, e3, if_true]
+    cases hcs : cc.chunks with
+    | none =>
+      simp only [hcs] at hspec1 hbp
+      subst hspec1
+      simp only [hch, if_true] at hbp
+      rw [hbp]
+      exact ⟨.chunked, [], by simp [dechunk_last], rfl⟩
+    | some cs =>
+      simp only [hcs, hch, if_true] at hspec1 hbp
+      obtain ⟨ds, hne, hpay, hwr⟩ := sendChunks_spec cs hspec1.2 true hbp.1
+      simp only [if_true] at hwr
+      rw [hbp.2, hwr]
+      refine ⟨.chunked, ds.flatten, ?_, by rw [← hspec1.1, hpay]⟩
+      rw [dechunk_frameData ds hne _ (by
+        have := length_le_frameData ds
+        simp only [List.length_append]; omega)]
+      rfl
+  · -- no framing at all: no body
+    have e1 : headerValues (fr.lines.map trimHdr) (lit "content-length") = [] := by rw [hl]; rfl
+    have e2 : headerValues (fr.lines.map trimHdr) (lit "transfer-encoding") = [] := by rw [hl]; rfl
+    simp only [hcn] at hspec1 hbp
+    subst hspec1
+    simp only [hch, Bool.false_eq_true, if_false] at hbp
+    simp only [e1, e2, hbp]
+    exact ⟨.unframed, [], rfl, rfl⟩
+  · -- Content-Length: n
+    have e1 : headerValues (fr.lines.map trimHdr) (lit "content-length") = [toDec n] := by
+      rw [hl]
+      have : lower (lit "Content-Length") == lit "content-length" := by decide
+      simp [headerValues, trimHdr, this, trimOWS_toDec]
+    have e2 : headerValues (fr.lines.map trimHdr) (lit "transfer-encoding") = [] := by
+      rw [hl]
+      have : (lower (lit "Content-Length") == lit "transfer-encoding") = false := by decide
+      simp [headerValues, trimHdr, this]
+    simp only [e1, e2, ofDec_toDec]
+    cases hcs : cc.chunks with
+    | none =>
+      simp only [hcs] at hspec1 hbp
+      subst hspec1
+      simp only [hch, Bool.false_eq_true, if_false] at hbp
+      have := hspec2 n [] hcl rfl
+      simp at this
+      subst this
+      rw [hbp]
+      exact ⟨.contentLength, [], by simp, rfl⟩
+    | some cs =>
+      simp only [hcs, hch, Bool.false_eq_true, if_false, List.append_nil] at hspec1 hbp
+      obtain ⟨ds, hne, hpay, hwr⟩ := sendChunks_spec cs hspec1.2 false hbp.1
+      simp only [Bool.false_eq_true, if_false] at hwr
+      have hpb : payload body = some ds.flatten := by rw [← hspec1.1, hpay]
+      have hlen := hspec2 n _ hcl hpb
+      rw [hbp.2, hwr]
+      exact ⟨.contentLength, ds.flatten, by simp [hlen], hpb⟩
+
+
 end U3.Wire
